@@ -703,6 +703,10 @@ class Executor:
             raise Unencodable(f"arity mismatch calling {fn.name}: {len(args)} vs {len(fn.params)}")
         for (p, _), a in zip(fn.params, args):
             st.heap[frame.cell(p)] = a
+        # zero-sized closures are never assigned in MIR (only `&_n` is taken)
+        for loc, ty in fn.locals.items():
+            if ty.startswith("{closure@") and loc not in dict(fn.params):
+                st.heap[frame.cell(loc)] = Agg(ty, {})
         return self.run_blocks(st, frame, "bb0", depth)
 
     def run_blocks(self, st, frame, bbname, depth):
